@@ -583,11 +583,6 @@ def gen_cases(ctx, nreqs):
                     cases.append({'id': 't%d' % i, 'queries': [t, f1, f2, t], 'starts': starts})
                     i += 1
     # fixed regression cases (DESIGN section 6, F13, and the handshake case)
-    cases.append({'id': 'f13', 'queries': [0, 0, 0, 3], 'starts': [{'k': 3, 'phase': 'trunc', 'n': 4}]})
-    cases.append({'id': 'hs', 'queries': [0, 0, 0, 3],
-                  'starts': [{'k': 2, 'phase': 'after_send'}, {'k': 0, 'phase': 'after_send'}]})
-    cases.append({'id': 'hs-trunc', 'queries': [0, 0, 0, 3],
-                  'starts': [{'k': 2, 'phase': 'after_send'}, {'k': 0, 'phase': 'trunc', 'n': 4}]})
     cases.append({'id': 'three', 'queries': [0, 1, 2, 3, 4],
                   'starts': [{'k': 4, 'phase': 'after_send'}, {'k': 2, 'phase': 'before_send'},
                              {'k': 3, 'phase': 'raises_fatal'}]})
@@ -734,6 +729,7 @@ def run(ctx):
                 with open(os.path.join(cdir, fn)) as f:
                     c = json.load(f)
                 c['id'] = 'corpus-' + fn[:-5]
+                c.pop('note', None)
                 cases.insert(0, c)
     t0 = time.time()
     pool_ctx = mp.get_context('fork')
